@@ -96,6 +96,24 @@ def build_rows(rep, tier, module="MC_Semantics.tla", invariants=None):
     return d
 
 
+def signal_table(rep):
+    """Run TLC on Signal.tla (option lattice -> signal) and return {(vt, vk, kind): signal} for rejections."""
+    from verifkit.util import scratch
+    with scratch("sig-") as d:
+        res = tlc.run_tlc("Signal.tla", "Signal.cfg", env={"ROW_DIR": d})
+        rep.tlc(res, "Signal.tla: violation option lattice")
+        if res.violated:
+            rep.machinery(f"Signal.tla violates {res.violated}")
+        tab = {}
+        for f in glob.glob(os.path.join(d, "signal_*.json")):
+            r = json.load(open(f))
+            if not r["acc"]:
+                tab[(r["vt"], r["vk"], r["kind"])] = r["sig"]
+    if len(tab) != 27:
+        rep.machinery(f"Signal.tla emitted {len(tab)} rejection rows, expected 27")
+    return tab
+
+
 def run_mutants(rep, tier="quick", muts=("union_first_only", "seq_len_minus_1"), module="MC_Semantics.tla",
                 invariants=None):
     """Spec mutants of the generated check must be rejected by the design invariants."""
@@ -370,7 +388,7 @@ def _replay_row(w, row, objs, real, jmap, confs, lcm, opts, out):
                                            f"{name}: culprits {cul!r:.120} do not begin with the rejected object")
             out["n_pairs"] += len(todo)
             if opts.get("viol_confs") and spi == 0 and (row["hid"] + seed) % opts["viol_confs"] == 0:
-                _viol_confs(w, row, hint, cabs, objs, real, jmap, verd, todo, lcm, props, out)
+                _viol_confs(w, row, hint, cabs, objs, real, jmap, verd, todo, lcm, props, out, opts["signal_table"], seed)
 
 
 _SEQ_CTORS = None
@@ -435,7 +453,7 @@ def _stretch(w, row, hint, conf, cabs, objs, real, jmap, idx, code, props, out, 
                                f"is_random=False: verdict depends on the draw (item {p} of {n} violates)")
 
 
-def _viol_confs(w, row, hint, cabs, objs, real, jmap, verd, todo, lcm, props, out):
+def _viol_confs(w, row, hint, cabs, objs, real, jmap, verd, todo, lcm, props, out, opts_sig=None, seed=0):
     """violation_type family: only the class of the signal changes, never the verdict (C03 / C18)."""
     import warnings as W
     from beartype import BeartypeConf, BeartypeViolationVerbosity as VV, beartype as deco
@@ -450,17 +468,35 @@ def _viol_confs(w, row, hint, cabs, objs, real, jmap, verd, todo, lcm, props, ou
     WarnT = type(f"WarnT_{n}", (UserWarning,), {})
     dflt = {"die": BeartypeDoorHintViolation, "th_die": BeartypeDoorHintViolation,
             "param": BeartypeCallHintParamViolation, "ret": BeartypeCallHintReturnViolation}
-    variants = [
-        ("violation_type=Exc", {"violation_type": ExcT}, {k: ExcT for k in dflt}, False),
-        ("violation_type=Warning", {"violation_type": WarnT}, {k: WarnT for k in dflt}, True),
-        ("per-kind types", {"violation_type": ExcT, "violation_door_type": ExcD, "violation_param_type": ExcP,
-                            "violation_return_type": ExcR},
-         {"die": ExcD, "th_die": ExcD, "param": ExcP, "ret": ExcR}, False),
-        ("param only", {"violation_param_type": ExcP}, {**dflt, "param": ExcP}, False),
-        ("verbosity MINIMAL, no colour", {"violation_verbosity": VV.MINIMAL, "is_color": False}, dflt, False),
-        ("verbosity MAXIMAL, colour", {"violation_verbosity": VV.MAXIMAL, "is_color": True}, dflt, False),
-    ]
-    for label, extra, wantcls, is_warn in variants:
+    # expected signal per (violation_type, per-kind option, kind): computed by TLC from Signal.tla
+    sig = opts_sig
+    ExcK = {k: type(f"ExcK_{k}_{n}", (Exception,), {}) for k in ("door", "param", "return")}
+    WarnK = {k: type(f"WarnK_{k}_{n}", (UserWarning,), {}) for k in ("door", "param", "return")}
+    optname = {"door": "violation_door_type", "param": "violation_param_type", "return": "violation_return_type"}
+    kind_of = {"die": "door", "th_die": "door", "param": "param", "ret": "return"}
+    rnd = __import__("random").Random(row["hid"] * 7919 + seed)
+    combos = [(vt, {k: rnd.choice(["unset", "excK", "warnK"]) for k in optname}) for vt in ("unset", "excT", "warnT")]
+    combos += [("excT", {k: "unset" for k in optname}), ("warnT", {k: "unset" for k in optname})]
+    variants = []
+    for vt, vks in combos:
+        extra = {}
+        if vt != "unset":
+            extra["violation_type"] = ExcT if vt == "excT" else WarnT
+        for k, v in vks.items():
+            if v != "unset":
+                extra[optname[k]] = ExcK[k] if v == "excK" else WarnK[k]
+        want = {}
+        for name, k in kind_of.items():
+            sg = sig[(vt, vks[k], k)]
+            c = sg["cls"]
+            rcls = {"excT": ExcT, "warnT": WarnT, "excK": ExcK[k], "warnK": WarnK[k]}.get(c) or dflt[name]
+            want[name] = (rcls, sg["act"] == "warn")
+        variants.append((f"violation_type={vt}, per-kind={vks}", extra, want))
+    variants.append(("verbosity MINIMAL, no colour", {"violation_verbosity": VV.MINIMAL, "is_color": False},
+                     {k: (v, False) for k, v in dflt.items()}))
+    variants.append(("verbosity MAXIMAL, colour", {"violation_verbosity": VV.MAXIMAL, "is_color": True},
+                     {k: (v, False) for k, v in dflt.items()}))
+    for label, extra, wantcls2 in variants:
         conf = real_conf(w, cabs, extra)
         th = TypeHint(hint)
 
@@ -511,7 +547,7 @@ def _viol_confs(w, row, hint, cabs, objs, real, jmap, verd, todo, lcm, props, ou
                                    f"{label}/{name}: accepted object but {type(exc).__name__ if exc else ''} "
                                    f"{[x_.category.__name__ for x_ in ws]} surfaced")
                         continue
-                    wc = wantcls[name]
+                    wc, is_warn = wantcls2[name]
                     if is_warn:
                         cats = [x_.category for x_ in ws]
                         if exc is not None or cats != [wc]:
